@@ -289,7 +289,13 @@ def _run_one(job):
     scratch = tempfile.mkdtemp(prefix="vsa_")
     try:
         shutil.copytree(os.path.join(repo_root, "bempp_cl"), os.path.join(scratch, "bempp_cl"), ignore=shutil.ignore_patterns("__pycache__", "*.npz", "*.npy", "*.msh"))
-        if not _apply(scratch, rel, old, new, occ):
+        if kind == "seed":
+            # a change seeded by a sub-agent: apply its patch.diff (old = path of the patch)
+            pr = subprocess.run(["patch", "-p1", "-s", "-i", old], cwd=scratch, capture_output=True, text=True)
+            if pr.returncode != 0:
+                return {"name": name, "kind": kind, "status": "anchor-missing", "props": props}
+            rel = "patch.diff"
+        elif not _apply(scratch, rel, old, new, occ):
             return {"name": name, "kind": kind, "status": "anchor-missing", "props": props}
         # must still parse (Python files)
         if rel.endswith(".py"):
@@ -311,6 +317,23 @@ def _run_one(job):
         shutil.rmtree(scratch, ignore_errors=True)
 
 
+def _seed_jobs():
+    """Changes seeded by sub-agents (/verif/seeded/<id>/): each must be reported by the checks its meta.json names."""
+    import glob
+
+    out = []
+    for meta in sorted(glob.glob(os.path.join(core.VERIF, "seeded", "*", "meta.json"))):
+        try:
+            d = json.load(open(meta))
+        except Exception:
+            continue
+        patch = os.path.join(os.path.dirname(meta), "patch.diff")
+        props = sorted(d.get("caught_by", {}))
+        if os.path.exists(patch) and props:
+            out.append(("seed", "seed:" + d.get("id", os.path.basename(os.path.dirname(meta))), "patch.diff", patch, "", 0, props))
+    return out
+
+
 def adequacy(prop):
     """Mutation adequacy of one property's check on the CURRENT tree (used by the thorough tier): every listed mutant
     naming `prop` is applied to a scratch copy and the check of `prop` alone must report it; every listed rewrite
@@ -321,6 +344,9 @@ def adequacy(prop):
         for name, rel, old, new, occ, props in lst:
             if prop in props:
                 jobs.append((kind, name, rel, old, new, occ, [prop], core.REPO))
+    for kind, name, rel, old, new, occ, props in _seed_jobs():
+        if prop in props:
+            jobs.append((kind, name, rel, old, new, occ, [prop], core.REPO))
     out = {"mutants": 0, "caught": 0, "missed": [], "skipped": [], "rewrites": 0, "silent": 0, "noisy": []}
     if not jobs:
         return out
@@ -331,7 +357,7 @@ def adequacy(prop):
             out["skipped"].append(r["name"])
             continue
         code = r["results"][prop]["exit"]
-        if r["kind"] == "mutant":
+        if r["kind"] in ("mutant", "seed"):
             out["mutants"] += 1
             if code == 1:
                 out["caught"] += 1
@@ -357,6 +383,10 @@ def main(argv):
             if not props:
                 continue
             jobs.append((kind, name, rel, old, new, occ, props, core.REPO))
+    for kind, name, rel, old, new, occ, props in _seed_jobs():
+        if only and name not in only and "seeds" not in only and not any(p in only for p in props):
+            continue
+        jobs.append((kind, name, rel, old, new, occ, props, core.REPO))
     with ProcessPoolExecutor(max_workers=min(16, len(jobs) or 1)) as ex:
         res = list(ex.map(_run_one, jobs))
     caught = missed = noisy = quiet = broken = 0
@@ -367,8 +397,9 @@ def main(argv):
             lines.append("BROKEN   %-34s %s" % (r["name"], r["status"]))
             continue
         exits = {p: v["exit"] for p, v in r["results"].items()}
-        if r["kind"] == "mutant":
-            if any(e == 1 for e in exits.values()):
+        if r["kind"] in ("mutant", "seed"):
+            # hand-written mutants: at least one named check reports; seeded changes: every check recorded in meta.json
+            if (all(e == 1 for e in exits.values()) if r["kind"] == "seed" else any(e == 1 for e in exits.values())):
                 caught += 1
                 lines.append("caught   %-34s %s" % (r["name"], " ".join("%s=%d" % kv for kv in sorted(exits.items()))))
             else:
